@@ -27,12 +27,12 @@ import datetime
 spec = __import__("json").loads(sys.argv[2])
 log_path = sys.argv[3]
 
-if spec["dest"] == "file_binary":
-    f = open(log_path, "ab")
-    eliot.add_destinations(FileDestination(file=f))
-elif spec["dest"] == "file_unbuffered":
-    f = open(log_path, "ab", buffering=0)
-    eliot.add_destinations(FileDestination(file=f))
+if spec["dest"] == "function":
+    # a plain function of the main module writing to a raw descriptor (nothing it needs goes away during shutdown)
+    log_fd = os.open(log_path, os.O_WRONLY | os.O_CREAT | os.O_APPEND)
+    def destination(message, _write=os.write, _fd=log_fd, _dumps=__import__("json").dumps):
+        _write(_fd, (_dumps({k: str(v) for k, v in message.items()}) + "\n").encode("utf-8"))
+    eliot.add_destinations(destination)
 elif spec["dest"] == "stdout_text":
     eliot.add_destinations(FileDestination(file=sys.stdout))
 elif spec["dest"] == "stdout_binary":
@@ -110,7 +110,8 @@ EXPECTED_JSON = {
     "nested": {"p": ["a/b", {"q": [5]}]},
     "int": 2 ** 60,
 }
-DESTS = ["file_binary", "file_unbuffered", "stdout_text", "stdout_binary", "to_file"]
+# (no ordinary opened file: at exit CPython may finalize - close - such a file before it finalizes the objects that log to it)
+DESTS = ["stdout_text", "stdout_binary", "to_file", "function"]
 HOWS = ["log_message", "action", "message_log", "task"]
 PER_RESOURCE = {"log_message": 1, "action": 3, "message_log": 1, "task": 2}
 NAMES = ["plain-global", "in-a-cycle", "function-attribute"]
@@ -152,7 +153,11 @@ def judge_no_raise(out):
             problems.append("a logging call made from %s.__del__ while the interpreter was shutting down raised into the finalizer: %s"
                             % (name, raised[0][len("DEL-RAISED "):]))
         elif ("DEL-OK " + name) not in out["stderr"]:
-            return None, "finalizer of %s never ran" % name
+            # (CPython finalizes what the main module leaves behind when it clears that module at exit; that a registered destination
+            # function refers to the main module's globals does not change this - unless the library parks a reference to its
+            # destinations somewhere that outlives module teardown)
+            problems.append("the object %s that the application left behind was never finalized at interpreter exit (its __del__, which logs, did not run) "
+                            "once a destination was registered" % name)
     return problems, None
 
 
@@ -161,6 +166,8 @@ def judge_lines(out, spec):
     problems = []
     if "MAIN-DONE" not in out["stderr"]:
         return None, "the probe's main module did not finish: %r" % (out["stderr"][-3:],)
+    if spec["dest"] == "function":
+        return [], None
     for name in NAMES:
         if not any(l.startswith(("DEL-OK " + name, "DEL-RAISED " + name)) for l in out["stderr"]):
             return None, "finalizer of %s never ran" % name
@@ -173,6 +180,8 @@ def judge_lines(out, spec):
             msgs.append(json.loads(line.decode("utf-8")))
         except Exception as e:
             problems.append("a line of the log is not a UTF-8 JSON object: %r (%s)" % (line[:80], e))
+    if spec["dest"] == "function":
+        return problems, None  # (that destination's rendering is its own; C07's part judges it)
     want = EXPECTED_JSON[spec["value"]]
     got_names = {}
     for m in msgs:
